@@ -420,3 +420,58 @@ class PolarsDepthDefault(Contract):
 
 
 CONTRACTS = [EnvParsing, GetConfigContext, ResetConfigContext, ConfigContext, GlobalConfigUntouched, ScopeSchema, ScopeData, InvalidReasonCode, PolarsDepthDefault]
+
+
+def _config_context_standin(seed=0, tier="quick"):
+    """run-time contract on the real config_context (bounded): with-form and decorator form, nesting / re-entrance depth 1-3, every
+    option, body returning or raising: the context configuration after leaving equals the one before entering"""
+    import itertools
+
+    from pandera import config as C
+    from pandera.config import ValidationDepth, config_context, get_config_context
+
+    def snap():
+        c = get_config_context(validation_depth_default=None)
+        return (c.validation_enabled, c.validation_depth, c.cache_dataframe, c.keep_cached_dataframe)
+
+    options = [{"validation_enabled": False}, {"validation_depth": ValidationDepth.SCHEMA_AND_DATA}, {"validation_depth": ValidationDepth.DATA_ONLY},
+               {"cache_dataframe": True}, {"keep_cached_dataframe": True}]
+    n = 0
+    bound = "5 option settings x with / decorator form x depth 1-3 x body returns / raises"
+    for kw, form, depth, raises in itertools.product(options, ("with", "decorator"), (1, 2, 3), (False, True)):
+        n += 1
+        before = snap()
+
+        class Boom(Exception):
+            pass
+
+        try:
+            if form == "with":
+                def go(k):
+                    with config_context(**kw):
+                        if k > 1:
+                            go(k - 1)
+                        elif raises:
+                            raise Boom()
+
+                go(depth)
+            else:
+                @config_context(**kw)
+                def rec(k):
+                    if k > 1:
+                        rec(k - 1)
+                    elif raises:
+                        raise Boom()
+
+                rec(depth)
+        except Boom:
+            pass
+        after = snap()
+        if after != before:
+            C.reset_config_context()
+            return {"examples": n, "bound": bound, "failing_input": {"options": {k: str(v) for k, v in kw.items()}, "form": form, "depth": depth, "body_raises": raises},
+                    "observed": {"context before": [str(x) for x in before], "after": [str(x) for x in after]}}
+    return {"examples": n, "bound": bound, "failing_input": None}
+
+
+ConfigContext.bounded_standin = staticmethod(_config_context_standin)
